@@ -73,8 +73,8 @@ Section Inner.
     post (solver_eval E cf x s)
       (fun p => let '(y, pn, s') := p in
                 inner0 s s' /\ evald s' y /\ pn = e_pen E y /\
-                write_knobs E true (va s) lims (x_to_knobs E cf x) (knobs s) = (knobs s', false))
-      (fun e s' => inner0 s s' /\ knobs s' = fst (write_knobs E true (va s) lims (x_to_knobs E cf x) (knobs s))).
+                write_knobs E (c_check cf) (va s) lims (x_to_knobs E cf x) (knobs s) = (knobs s', false))
+      (fun e s' => inner0 s s' /\ knobs s' = fst (write_knobs E (c_check cf) (va s) lims (x_to_knobs E cf x) (knobs s))).
   Proof.
     unfold solver_eval. eapply post_bind'; [apply merit_spec| |].
     - intros e s' H; exact H.
@@ -83,16 +83,17 @@ Section Inner.
 
   (* a failing checked evaluation keeps the containers inside the limits *)
   Lemma eval_err_lims x s e s' :
-    solver_eval E cf x s = Err e s' -> lims_ok E lims (knobs s) -> lims_ok E lims (knobs s').
+    c_check cf = true -> solver_eval E cf x s = Err e s' -> lims_ok E lims (knobs s) -> lims_ok E lims (knobs s').
   Proof.
-    intros He Hl. pose proof (eval_spec x s) as H. rewrite He in H. cbn in H. destruct H as [_ ->].
-    apply wk_lims; auto.
+    intros Hc He Hl. pose proof (eval_spec x s) as H. rewrite He in H. cbn in H. destruct H as [_ ->].
+    rewrite Hc. apply wk_lims; auto.
   Qed.
 
   Lemma eval_ok_lims x s y pn s' :
-    solver_eval E cf x s = Ok (y, pn, s') -> lims_ok E lims (knobs s) -> lims_ok E lims (knobs s').
+    c_check cf = true -> solver_eval E cf x s = Ok (y, pn, s') -> lims_ok E lims (knobs s) -> lims_ok E lims (knobs s').
   Proof.
-    intros He Hl. pose proof (eval_spec x s) as H. rewrite He in H. cbn in H. destruct H as (_ & _ & _ & Hw).
+    intros Hc He Hl. pose proof (eval_spec x s) as H. rewrite He in H. cbn in H. destruct H as (_ & _ & _ & Hw).
+    rewrite Hc in Hw.
     pose proof (wk_lims E (va s) lims (x_to_knobs E cf x) (knobs s) Hl) as H. rewrite Hw in H. exact H.
   Qed.
 
@@ -137,7 +138,7 @@ Section Inner.
     revert this xl t h; induction x as [|xi x IH]; intros [|ti this] [|[lo hi] xl] t h; cbn;
       try (intros H; inversion H; subst; cbn; auto; fail).
     destruct (lim_loop E x this xl) as [tl hh] eqn:Hr. specialize (IH _ _ _ _ Hr). destruct IH as [I1 I2].
-    destruct (e_ltb E (e_sub E xi ti) lo); [|destruct (e_ltb E hi (e_sub E xi ti))];
+    destruct (below E lo (e_sub E xi ti)); [|destruct (above E hi (e_sub E xi ti))];
       intros H; inversion H; subst; cbn; auto.
   Qed.
 
@@ -149,7 +150,7 @@ Section Inner.
      containers kp that differ from those of s0 only in active knobs *)
   Definition landed (s0 : state) (x : list F) (s : state) (np : F) (t : list F) : Prop :=
     exists y kp, evald s y /\ np = e_pen E y /\ kn_inact E (va s0) (knobs s0) kp /\
-      write_knobs E true (va s0) lims (x_to_knobs E cf (map2 (e_sub E) x t)) kp = (knobs s, false).
+      write_knobs E (c_check cf) (va s0) lims (x_to_knobs E cf (map2 (e_sub E) x t)) kp = (knobs s, false).
   Definition from_lim (x xstep t : list F) (h : list bool) : Prop :=
     exists this, length this = length xstep /\ lim_loop E x this (x_limits E cf) = (t, h).
 
@@ -186,7 +187,7 @@ Section Inner.
   Definition stepped (s0 s' : state) : Prop :=
     exists x' y kp, sx s' = Some x' /\ evald s' y /\ pen_after s' = e_pen E y /\
       kn_inact E (va s0) (knobs s0) kp /\
-      write_knobs E true (va s0) lims (x_to_knobs E cf x') kp = (knobs s', false) /\
+      write_knobs E (c_check cf) (va s0) lims (x_to_knobs E cf x') kp = (knobs s', false) /\
       (wfc -> wfs s0 -> length x' = n /\ length (mfl s') = n).
 
   Lemma evald_frame s s' out :
